@@ -211,7 +211,13 @@ func newHist(t *testing.T, rng *rand.Rand, rec *sim.Rec, k Knobs) *hist {
 		h.clients = append(h.clients, tw)
 	}
 	for i := 0; i < nTCP; i++ {
-		c, err := w.NewTCPClient(fmt.Sprintf("t%d", i), net.IPv4(10, 1, 1, byte(1+i)).To4(), 6000+i, 0, users[rng.Intn(len(users))])
+		tip, tport := net.IPv4(10, 1, 1, byte(1+i)).To4(), 6000+i
+		if i == 0 && rng.Intn(3) == 0 {
+			// the same host and port number as UDP client c0, over TCP: another 5-tuple
+			tip, tport = net.IPv4(10, 1, 0, 1).To4(), 5000
+			rec.Ev("tcp-client-on-a-udp-clients-address")
+		}
+		c, err := w.NewTCPClient(fmt.Sprintf("t%d", i), tip, tport, 0, users[rng.Intn(len(users))])
 		if err != nil {
 			t.Fatalf("tcp client: %v", err)
 		}
